@@ -1,11 +1,22 @@
 // Family binary "stores": C07 C08 C09 C10 C15.
 package main
 
-import "github.com/thanos-io/thanos/verifharness/hlib"
+import (
+	"os"
+	"runtime/pprof"
+
+	"github.com/thanos-io/thanos/verifharness/hlib"
+)
 
 var props []*hlib.Prop
 
 func main() {
 	defer e2eCleanup() // temp dirs of the end-to-end stores
+	if p := os.Getenv("VERIF_PPROF"); p != "" {
+		if f, err := os.Create(p); err == nil {
+			_ = pprof.StartCPUProfile(f)
+			defer pprof.StopCPUProfile()
+		}
+	}
 	hlib.Main(props)
 }
